@@ -58,7 +58,7 @@ func ruleC08_1(c *Ctx) {
 		}
 		c.check(okArgs, tag+": leftover is c.buffer into c.inboundBuffer", c.at(sv), "c.inboundBuffer.Write(c.buffer)", "what is saved for the next round is not the connection's own unconsumed bytes")
 		// only on the incomplete edge: guarded by err != nil of the reader's result, and not the invalid edge
-		gs := guardsAt(sv.Block())
+		gs := guardsOf(sv)
 		errNotNil := guardHas(gs, func(g Guard) bool {
 			x, op, y, ok := cmpGuard(g)
 			if !ok || op != token.NEQ || !isNilConst(y) {
@@ -282,7 +282,7 @@ func ruleC08_2(c *Ctx) {
 	}
 	// classify closeConn calls that depend on the decoder's error
 	for _, cc := range p.callsIn(cread, closeConn) {
-		gs := guardsAt(cc.Block())
+		gs := guardsOf(cc)
 		isErr := func(v ssa.Value) bool {
 			ex, ok := v.(*ssa.Extract)
 			if !ok || ex.Index != 1 {
@@ -459,7 +459,7 @@ func ruleC09_1(c *Ctx) {
 	doneF := p.Field(pkgCore, "Msg", "Done")
 	headF := p.Field(pkgCore, "MsgQueue", "head")
 	for i, w := range writes {
-		gs := guardsAt(w.Block())
+		gs := guardsOf(w)
 		var scans []string
 		headDone := false
 		for _, g := range gs {
@@ -593,7 +593,16 @@ func ruleC09_2(c *Ctx) {
 		switch x := last.(type) {
 		case *ssa.Return:
 			paths++
-			if f.reason == "" {
+			// leaving the loop to shut the engine down is not a withheld reply
+			shutdown := false
+			if rs := results(x); len(rs) == 1 {
+				if ld, ok := rs[0].(*ssa.UnOp); ok {
+					if g, ok := ld.X.(*ssa.Global); ok && g.Name() == "ErrEngineShutdown" {
+						shutdown = true
+					}
+				}
+			}
+			if f.reason == "" && !shutdown {
 				bad = append(bad, "return at "+c.at(x)+" via "+strings.Join(f.trail, " → "))
 			}
 			return
@@ -658,9 +667,10 @@ func ruleC10_2(c *Ctx) {
 		c.bad("handleWriteSignal: one dequeue and one enqueue per iteration", p.pos(hws.Pos()), fmt.Sprintf("found %d dequeueOutFrag and %d enqueueInFrag calls", len(d), len(e)))
 		return
 	}
-	loops := loopsOf(hws)
+	// the drain loop may have been extracted into a helper of handleWriteSignal
+	loops := loopsOf(d[0].Parent())
 	l := innermostLoop(loops, d[0].Block())
-	c.check(l != nil && l == innermostLoop(loops, e[0].Block()), "handleWriteSignal: drain loop", c.at(d[0]), "dequeue and enqueue in the same loop", "the out queue is not drained in a loop that moves each fragment to the in-flight queue")
+	c.check(l != nil && d[0].Parent() == e[0].Parent() && l == innermostLoop(loops, e[0].Block()), "handleWriteSignal: drain loop", c.at(d[0]), "dequeue and enqueue in the same loop", "the out queue is not drained in a loop that moves each fragment to the in-flight queue")
 	if l == nil {
 		return
 	}
@@ -668,10 +678,28 @@ func ruleC10_2(c *Ctx) {
 	arg := strip(e[0].Common().Args[1])
 	isHead := false
 	var headLoad ssa.Instruction
-	if q, ok := fieldLoad(arg, headF); ok {
-		if base, ok := fieldLoad(q, outQ); ok && strip(base) == recv {
+	isHeadLoad := func(v ssa.Value) bool {
+		if q, ok := fieldLoad(v, headF); ok {
+			if base, ok := fieldLoad(q, outQ); ok && strip(base) == recv {
+				return true
+			}
+		}
+		return false
+	}
+	if isHeadLoad(arg) {
+		isHead = true
+		headLoad, _ = arg.(ssa.Instruction)
+	} else if ph, ok := arg.(*ssa.Phi); ok {
+		// loop variable re-loaded from the queue head on every iteration: for h := q.head; h != nil; h = q.head
+		all := len(ph.Edges) > 0
+		for _, e := range ph.Edges {
+			if !isHeadLoad(strip(e)) {
+				all = false
+			}
+		}
+		if all {
 			isHead = true
-			headLoad, _ = arg.(ssa.Instruction)
+			headLoad = ph
 		}
 	}
 	c.check(isHead, "handleWriteSignal: the fragment moved is the head of the out queue", c.at(e[0]), "head := c.outFragQueue.head", "the fragment put in flight is "+expr(arg)+", not the head of the out queue: fragments are sent in another order than they were queued")
@@ -719,7 +747,7 @@ func ruleC10_2(c *Ctx) {
 		if !ok {
 			continue
 		}
-		lw := innermostLoop(loops, w.Block())
+		lw := innermostLoop(loopsOf(w.Parent()), w.Block())
 		if lw == nil {
 			continue
 		}
@@ -755,7 +783,7 @@ func ruleC10_3(c *Ctx) {
 		if s.Fn.Synthetic != "" {
 			continue
 		}
-		c.touch(outermost(s.Fn))
+		c.touch(homeFn(s.Fn))
 		name := "FragQueue.PushTail in " + shortFn(s.Fn)
 		if s.Call == nil {
 			c.bad(name, c.at(s.Instr), "PushTail is taken as a function value: the push can be deferred")
@@ -786,7 +814,7 @@ func ruleC10_3(c *Ctx) {
 		if s.Fn.Synthetic != "" {
 			continue
 		}
-		name := "EnqueueOutFrag used in " + shortFn(outermost(s.Fn))
+		name := "EnqueueOutFrag used in " + shortFn(homeFn(s.Fn))
 		c.check(s.Call != nil && s.Fn.Parent() == nil, name, c.at(s.Instr), "direct call in the handler's body", "EnqueueOutFrag is called from a closure or passed as a value: the enqueue may run later than the routing decision, reordering a client's requests to one node")
 	}
 }
